@@ -400,12 +400,53 @@ def run(ctx: Context) -> None:
             and bool(bf.returns()) and all(bflow2.reaches(r.value, lambda n: n is fr_[0]) for r in bf.returns())
         if not (ok and ok2):
             # the same ring computed on whole arrays: faces whose row holds (unmasked) one of the nodes of the hit faces, or that are hit faces themselves
-            bv = Matcher(ctx, bf)
-            ok_v = bv.ordered(f"$fn = {tpp}.face_node_array", f"$nodes = numpy.unique($fn[{fip}].compressed())",
-                              "$has = numpy.isin(numpy.ma.getdata($fn), $nodes)", "$shares = numpy.any($has & ~numpy.ma.getmaskarray($fn), axis=1)",
-                              f"$orig = numpy.isin(numpy.arange(len($fn)), {fip})")
-            pick = (bv.stmt('$out = numpy.flatnonzero($orig | $shares)') or bv.stmt('$out = numpy.flatnonzero($shares | $orig)')) if ok_v else None
-            ok = ok2 = bool(ok_v) and pick is not None and bool(bf.returns()) and all(bflow2.reaches(r.value, lambda n: n is pick.value) for r in bf.returns())
+            R = bflow2.resolve
+
+            def is_call(e, name, nargs=None):
+                return isinstance(e, ast.Call) and (callee(ctx, bf, e) or '') == name and (nargs is None or len(e.args) == nargs)
+
+            def is_table(e):
+                return norm_text(R(e)) == f"{tpp}.face_node_array"
+
+            def is_hit_nodes(e):
+                e = R(e)
+                if is_call(e, 'numpy.unique', 1):
+                    inner = R(e.args[0])
+                    return (isinstance(inner, ast.Call) and isinstance(inner.func, ast.Attribute) and inner.func.attr == 'compressed' and not inner.args
+                            and isinstance(R(inner.func.value), ast.Subscript) and is_table(R(inner.func.value).value) and norm_text(R(inner.func.value).slice) == fip)
+                return False
+
+            def is_present_hit(e):
+                """isin(getdata(table), nodes) & ~getmaskarray(table), in either order"""
+                e = R(e)
+                if not (isinstance(e, ast.BinOp) and isinstance(e.op, ast.BitAnd)):
+                    return False
+                parts = [R(e.left), R(e.right)]
+                has = [x for x in parts if is_call(x, 'numpy.isin', 2) and is_call(R(x.args[0]), 'numpy.ma.getdata', 1) and is_table(R(x.args[0]).args[0]) and is_hit_nodes(x.args[1])]
+                present = [x for x in parts if isinstance(x, ast.UnaryOp) and isinstance(x.op, ast.Invert) and is_call(R(x.operand), 'numpy.ma.getmaskarray', 1) and is_table(R(x.operand).args[0])]
+                return len(has) == 1 and len(present) == 1
+
+            def is_shares(e):
+                e = R(e)
+                return is_call(e, 'numpy.any', 1) and const_value(kwarg(e, 'axis'), None) == 1 and is_present_hit(e.args[0])
+
+            def is_original(e):
+                e = R(e)
+                if not is_call(e, 'numpy.isin', 2) or norm_text(R(e.args[1])) != fip:
+                    return False
+                rng = R(e.args[0])
+                if not is_call(rng, 'numpy.arange', 1):
+                    return False
+                n_ = R(rng.args[0])
+                return (isinstance(n_, ast.Call) and dotted(n_.func) == 'len' and is_table(n_.args[0])) or \
+                    (isinstance(n_, ast.Subscript) and const_value(n_.slice, None) == 0 and isinstance(n_.value, ast.Attribute) and n_.value.attr == 'shape' and is_table(n_.value.value))
+            picks = [c for c in calls_in(bf) if is_call(c, 'numpy.flatnonzero', 1)]
+            ok_v = False
+            if len(picks) == 1:
+                u_ = R(picks[0].args[0])
+                ok_v = isinstance(u_, ast.BinOp) and isinstance(u_.op, ast.BitOr) and \
+                    ((is_original(u_.left) and is_shares(u_.right)) or (is_original(u_.right) and is_shares(u_.left)))
+            ok = ok2 = bool(ok_v) and bool(bf.returns()) and all(bflow2.reaches(r.value, lambda n: n is picks[0]) for r in bf.returns())
         ctx.check('R07.6', ok and ok2, "one ring: the original faces plus every face sharing a node with them, in ascending face order", bf, gens[0] if gens else bf.node)
         mf = ctx.func(f"{UGRID}.mask_from_face_indexes")
         mflow = ctx.flow(mf)
